@@ -42,6 +42,19 @@ def _real_seq(conn, dict_cursor: bool, ops: list[str]) -> list[str]:
                 cur.execute({"y900": "call some_proc(1)", "y1": "insert into t2 values (5)", "y0": "delete from t2 where x = -1"}[op])
                 want = {"y900": 1, "y1": 1, "y0": 0}[op]
                 out.append("u" if cur.rowcount == want else f"X:rowcount {cur.rowcount} after a statement whose status row says {want}")
+            elif k in "fg":
+                # an execute (f) / describe (g) that raises: the cursor is left without a result set
+                import snowflake.connector.errors as sfe
+                try:
+                    (cur.execute if k == "f" else cur.describe)("select * from no_such_table_c05")
+                    out.append("X:no error for a missing table")
+                except sfe.ProgrammingError:
+                    out.append("u")
+            elif k == "e":
+                # executemany of n one-row INSERTs: the cursor holds the LAST statement's status row; rowcount agrees with it
+                n = int(op[1:])
+                cur.executemany("insert into t2 values (%s)", [(50 + i,) for i in range(n)])
+                out.append("u" if cur.rowcount == 1 else f"X:rowcount {cur.rowcount} after executemany whose result is the status row (1,)")
             elif k == "o":
                 r = cur.fetchone()
                 out.append("n" if r is None else f"r{enc_row(r)}")
@@ -83,6 +96,8 @@ def _worker(shard):
                     res.append(_real_reexec(conn, payload))
                 elif kind == "pandas":
                     res.append(_real_pandas(conn, payload))
+                elif kind == "multi":
+                    res.append(_real_multi(conn, payload))
                 else:
                     res.append(_real_shape(conn, payload))
             except Exception as e:  # an exception where the property promises a value is an observation, not a crash
@@ -131,7 +146,13 @@ def _cases(chk) -> list:
     chk.extra["exhaustive_part"] = f"all sequences x<n>·{{{','.join(FETCH)}}}^≤{maxlen} for n=0..{MAXROWS}: {len(seqs)}"
     # random long sequences with re-executes in the middle
     nrand = 1500 if chk.tier == "quick" else 40000
-    alphabet = FETCH + ["m4", "m5", "m7", "s4", "s5", "y900", "y1", "y0"] + [f"x{n}" for n in range(MAXROWS + 1)]
+    alphabet = FETCH + ["m4", "m5", "m7", "s4", "s5", "y900", "y1", "y0", "f", "g", "e1", "e2", "e3"] + [f"x{n}" for n in range(MAXROWS + 1)]
+    # a failing execute / describe, or an executemany, between a result and further fetches
+    for n in (0, 3):
+        for mid in ("f", "g", "e1", "e3"):
+            for t in itertools.product(FETCH, repeat=1):
+                for t2 in (["o"], ["a"], ["m2", "o"], [f"x{n}", "a"]):
+                    seqs.append([f"x{n}", *t, mid, *t2])
     # every fetch/arraysize pair between a result and a following one-row status statement (nop match / INSERT)
     for n in (0, 2, 5):
         for y in ("y900", "y1", "y0"):
@@ -153,12 +174,59 @@ def _cases(chk) -> list:
                 cases.append(("shape", ([NAME_POOL[i][0] for i in names], nrows, [NAME_POOL[i][1] for i in names])))
     for sql in PANDAS_SQL:
         cases.append(("pandas", sql))
+    for dict_cursor in (False, True):
+        for script in MULTI_SCRIPTS:
+            cases.append(("multi", (dict_cursor, script)))
     # re-executing the same SQL text after the result shape was changed through another cursor
     for ddl in REEXEC_DDL:
         for dict_cursor in (False, True):
             for fetch_first in (False, True):
                 cases.append(("reexec", (ddl, dict_cursor, fetch_first)))
     return cases
+
+
+# execute_string: one cursor per statement, each holding its own statement's result
+MULTI_SCRIPTS = [
+    [("select x from t where x < 2 order by x", [0, 1]), ("select x from t where x < 4 order by x", [0, 1, 2, 3]), ("delete from t2 where x = -1", [0])],
+    [("select x from t where x < 3 order by x", [0, 1, 2]), ("select x from t where x < 0", [])],
+    [("insert into t2 values (77)", [1]), ("select x from t where x < 1", [0]), ("select x from t where x < 5 order by x", [0, 1, 2, 3, 4])],
+]
+
+
+def _real_multi(conn, payload):
+    from snowflake.connector.cursor import DictCursor, SnowflakeCursor
+    dict_cursor, script = payload
+    curs = list(conn.execute_string("; ".join(sql for sql, _ in script), cursor_class=DictCursor if dict_cursor else SnowflakeCursor))
+    got = []
+    rowcounts = [c.rowcount for c in curs]          # read every rowcount before fetching anything
+    for c in curs:
+        rows = c.fetchall()
+        got.append([next(iter(r.values())) if dict_cursor else r[0] for r in rows])
+    again = [c.fetchall() for c in curs]
+    return {"rows": got, "rowcounts": rowcounts, "again": again, "distinct": len({id(c) for c in curs})}
+
+
+def _check_multi(chk, payload, real):
+    dict_cursor, script = payload
+    case = {"kind": "multi", "dict_cursor": dict_cursor, "script": [s for s, _ in script]}
+    chk.case(("multi", dict_cursor, tuple(s for s, _ in script)))
+    chk.count("multi")
+    want = [rows for _, rows in script]
+    want_rc = [rows[0] if sql.startswith(("insert", "delete")) else len(rows) for sql, rows in script]
+    bad = None
+    if "exception" in real:
+        bad = f"raised {real['exception']}"
+    elif real["rows"] != want:
+        bad = f"the returned cursors hand out {real['rows']}, each statement's own result is {want}"
+    elif real["rowcounts"] != want_rc:
+        bad = f"rowcounts {real['rowcounts']} ≠ {want_rc}"
+    elif any(real["again"]):
+        bad = f"a drained cursor handed out rows again: {real['again']}"
+    elif real["distinct"] != len(script):
+        bad = f"{real['distinct']} distinct cursors for {len(script)} statements"
+    if bad:
+        chk.violation(f"execute_string({'; '.join(case['script'])!r}): {bad}", case,
+                      broken="C05_prefix per cursor (each cursor holds its own statement's result)")
 
 
 # value-typed results: fetch_pandas_all must agree with the rows fetchall hands out, for every value type
@@ -351,10 +419,10 @@ def _lines(cases):
     lines = []
     for kind, payload in cases:
         if kind == "seq":
-            lines.append("fetch\trun\t" + enc_list(payload[1]))
+            lines.append("fetch\trun\t" + enc_list(["f" if o == "g" else ("y1" if o[0] == "e" else o) for o in payload[1]]))
         elif kind == "reexec":
             lines.append("fetch\trow\t" + enc_list([enc_str(n) for n in REEXEC_DDL[payload[0]][1]]))
-        elif kind == "pandas":
+        elif kind in ("pandas", "multi"):
             lines.append("fetch\trow\t" + enc_list([enc_str("X")]))
         else:
             lines.append("fetch\trow\t" + enc_list([enc_str(n) for n in payload[2]]))
@@ -376,6 +444,8 @@ def run(chk) -> None:
                 _check_reexec(chk, payload, real)
             elif kind == "pandas":
                 _check_pandas(chk, payload, real)
+            elif kind == "multi":
+                _check_multi(chk, payload, real)
             else:
                 (_check_seq if kind == "seq" else _check_shape)(chk, payload, real, reply)
     chk.samples = [{"ops": s[1][1], "dict": s[1][0]} for s in cases if s[0] == "seq"][200:204] + \
@@ -394,6 +464,9 @@ def replay(chk, case) -> None:
         _check_seq(chk, payload, real, reply)
     elif case["kind"] == "pandas":
         _check_pandas(chk, case["sql"], _worker([("pandas", case["sql"])])[0])
+    elif case["kind"] == "multi":
+        payload = (case["dict_cursor"], next(sc for sc in MULTI_SCRIPTS if [s for s, _ in sc] == case["script"]))
+        _check_multi(chk, payload, _worker([("multi", payload)])[0])
     elif case["kind"] == "reexec":
         payload = (case["ddl"], case["dict_cursor"], case["fetch_first"])
         _check_reexec(chk, payload, _worker([("reexec", payload)])[0])
